@@ -39,9 +39,9 @@ CFG = {
 MANIFEST = {
     "text": ("Theorems about a model of names.rs and the glyph loops of layer.rs: intern_returns_equal_name / interning_never_mixes (whatever the shared set holds "
              "at the read step and at the write step of NameList::get, the name handed out has the requested text); par_load_items / par_load_eq_seq / "
-             "par_load_fails_iff_seq_fails / par_font_eq_seq (for EVERY assignment of files to any number of workers and EVERY interleaving of their atomic steps "
-             "under which all workers finish, every glyph carries its contents key and its own component bases and the collected layer maps equal the sequential "
-             "ones, from any initial name list, layer after layer); par_save_eq_seq (file writes in any order give the sequential directory when contents names "
+             "par_load_eq_seq_sorted / par_load_fails_iff_seq_fails / par_font_eq_seq (for EVERY assignment of files to any number of workers and EVERY interleaving of their atomic steps "
+             "under which all workers finish, every glyph carries its contents key and its own component bases and the collected layer maps — as functions and as "
+             "key-sorted lists — equal the sequential ones, from any initial name list, layer after layer); par_save_eq_seq (file writes in any order give the sequential directory when contents names "
              "every file once) with par_save_eq_seq_counterexample for a crafted contents.plist (recorded finding, reproduced on the real crate). "
              "PARTIAL: real schedules are sampled (sequential vs rayon build of the harness, pools 1/2/4/16, 20x/500x per tree), labelled as a test."),
     "design_ref": "5 / C19",
